@@ -1,0 +1,59 @@
+//go:build verif
+
+package generator
+
+// Contracts for the govc verifier (/verif). Comment-only; excluded from every
+// normal build by the tag above.
+//
+// Stage-2 vocabulary (see /verif/DESIGN.md §3.4): emitted(out) is the text the
+// call appended to the emitter; rejects/panics/assigned give that text its
+// meaning in a state sigma of the generated program.
+
+//@ spec sig1(f, x) = sigma("plain", x, "plain." + f, x)
+//@ spec accept_num(v, x) = lower_ok(v.minimum, v.exclusiveMinimum, x) && upper_ok(v.maximum, v.exclusiveMaximum, x)
+//@ spec mult_ok(m, x) = m == nil || gomod(x, trunc64(*m)) == 0
+
+// Integer fields are proved in the regime where int64(bound) IS the bound:
+// every present bound is an integer inside int64, multipleOf an integer with
+// 1 <= |m| < 2^63. Outside it the emitted literal is a truncation (known
+// findings C05-int-fractional-bound, C05-int-huge-bound, C05-int-multipleof in
+// /verif/KNOWN_FINDINGS.txt, each with an end-to-end witness).
+//@ spec int64_valued(p) = p == nil || (is_int(*p) && abs(*p) < pow2(63))
+//@ spec int64_valued_any(p) = p == nil || !is_float(*p) || (is_int(as_float(*p)) && abs(as_float(*p)) < pow2(63))
+
+//@ func (*numericValidator).generate @float
+//@   props C05 C19 C01 C02
+//@   option e2e numeric accept_num(v, x)
+//@   shape out = emitter
+//@   shape *v.exclusiveMinimum = anybool | anyfloat
+//@   shape *v.exclusiveMaximum = anybool | anyfloat
+//@   shape v.isNillable = true | false
+//@   shape v.roundToInt = false
+//@   assigns *out
+//@   ensures [C01,C19] parses: parses(emitted(out)) && !mentions(emitted(out), "j") && out.indent == old(out.indent)
+//@   ensures [C05,C02] value: forall x real :: !v.isNillable && v.multipleOf == nil
+//@       ==> (rejects(emitted(out), sig1(v.fieldName, x)) <==> !accept_num(v, x))
+//@   ensures [C05,C02] ptr: forall x real :: v.isNillable && v.multipleOf == nil
+//@       ==> (rejects(emitted(out), sig1(v.fieldName, ptr_to(x))) <==> !accept_num(v, x))
+//@   ensures [C05,C02] bounds-with-multipleof: forall x real :: v.multipleOf != nil && !rejects(emitted(out), sig1(v.fieldName, v.isNillable ? ptr_to(x) : x)) ==> accept_num(v, x)
+//@   ensures [C05,C19] nil-never-checked: v.isNillable ==> !rejects(emitted(out), sig1(v.fieldName, nil_ptr())) && !panics(emitted(out), sig1(v.fieldName, nil_ptr()))
+//@   ensures [C19] no-panic: forall x real :: !panics(emitted(out), sig1(v.fieldName, v.isNillable ? ptr_to(x) : x))
+
+//@ func (*numericValidator).generate @int
+//@   props C05 C19 C01 C02
+//@   option e2e numeric accept_num(v, x) && mult_ok(v.multipleOf, x)
+//@   shape out = emitter
+//@   shape *v.exclusiveMinimum = anybool | anyfloat
+//@   shape *v.exclusiveMaximum = anybool | anyfloat
+//@   shape v.isNillable = true | false
+//@   shape v.roundToInt = true
+//@   requires int-regime: int64_valued(v.minimum) && int64_valued(v.maximum) && int64_valued_any(v.exclusiveMinimum) && int64_valued_any(v.exclusiveMaximum)
+//@   requires int-multipleof: v.multipleOf == nil || (int64_valued(v.multipleOf) && abs(*v.multipleOf) >= 1)
+//@   assigns *out
+//@   ensures [C01,C19] parses: parses(emitted(out)) && !mentions(emitted(out), "j") && out.indent == old(out.indent)
+//@   ensures [C05,C02] value: forall x int :: !v.isNillable && in_rng("int64", x)
+//@       ==> (rejects(emitted(out), sig1(v.fieldName, x)) <==> !(accept_num(v, x) && mult_ok(v.multipleOf, x)))
+//@   ensures [C05,C02] ptr: forall x int :: v.isNillable && in_rng("int64", x)
+//@       ==> (rejects(emitted(out), sig1(v.fieldName, ptr_to(x))) <==> !(accept_num(v, x) && mult_ok(v.multipleOf, x)))
+//@   ensures [C05,C19] nil-never-checked: v.isNillable ==> !rejects(emitted(out), sig1(v.fieldName, nil_ptr())) && !panics(emitted(out), sig1(v.fieldName, nil_ptr()))
+//@   ensures [C19] no-panic: forall x int :: !panics(emitted(out), sig1(v.fieldName, v.isNillable ? ptr_to(x) : x))
